@@ -354,6 +354,7 @@ class Ctx:
         self.known_hits = 0
         self.fault = None
         self._distinct = set()
+        self.overlay_tags = set()
         self.known = load_known()
 
     # -- logging -----------------------------------------------------------
@@ -483,6 +484,12 @@ class Ctx:
         for dp, _, fns in os.walk(root):
             for fn in fns:
                 if fn.endswith(".go"):
+                    # verif_cNN_*.go shims belong to property CNN; a check only
+                    # injects the shared shims, its own, and those it lists in
+                    # ctx.overlay_tags (so one property's shim cannot break another's build)
+                    m = re.match(r"verif_(c\d\d)_", fn)
+                    if m and m.group(1).upper() != self.pid and m.group(1) not in self.overlay_tags:
+                        continue
                     src = os.path.join(dp, fn)
                     rel = os.path.relpath(src, root)
                     rep[os.path.join(REPO, rel)] = src
